@@ -328,6 +328,12 @@ def r19_10(run, model):
 def run(run, model):
     run.try_rule(r19_8, model)
     run.try_rule(r19_10, model)
+    from rules import c17 as _c17
+    run.rule("R19.11", "a user function cannot take the name of a builtin: define_function rejects a name that is already in the package's "
+                       "function table, which holds the builtins too (shared with C16 R16.8) - the runtime defines those names and the back "
+                       "end lowers several of them by name")
+    run.try_rule(lambda r, m: _c17.unique_definition(r, m, "R19.11", "define_function", ".funcs", "function table",
+                 "fn int32_to_string(..) in Main: `func int32_to_string` is declared twice; fn vec_len(n: int32) is lowered as int32(len(n))"), model)
     from rules import c07
     run.rule("R19.9", "instance names are rendered by the injective type printer (shared with C07 R07.3)")
     run.try_rule(c07.r07_3, model)
